@@ -300,7 +300,17 @@ impl Prop for C20 {
                         .map_err(|e| Failure { signature: "rust-api-rejects".into(), detail: e.to_string() })?;
                     let size = std::mem::size_of::<MaybenotAction>();
                     for (bi, batch) in batches.iter().enumerate() {
-                        let evs: Vec<MaybenotEvent> = batch.iter().map(ev_c).collect();
+                        let mut evs: Vec<MaybenotEvent> = batch.iter().map(ev_c).collect();
+                        if bi % 2 == 1 {
+                            // the `machine` member of an event that names no machine is unused: whatever a
+                            // C caller left in it must not matter
+                            for (e, src) in evs.iter_mut().zip(batch.iter()) {
+                                if src.machine().is_none() {
+                                    e.machine = if bi % 4 == 1 { usize::MAX } else { n + 1 };
+                                }
+                            }
+                            hits.push("garbage_in_unused_machine_member");
+                        }
                         // output buffer between canaries, pre-filled with a pattern
                         let total = n + 2 * GUARD;
                         let mut buf: Vec<MaybeUninit<MaybenotAction>> = Vec::with_capacity(total);
@@ -689,6 +699,7 @@ impl Prop for C20 {
         vec![
             "asymmetric_flags_written",
             "rejected_call_in_the_middle_of_a_run",
+            "garbage_in_unused_machine_member",
             "same_machine_listed_twice",
             "action_from_a_batch_longer_than_256",
             "two_or_more_actions",
